@@ -114,7 +114,17 @@ pub struct Judged {
 /// Solves one scenario and judges it.
 pub fn judge(family: &str, problem: &PProblem, cfg: &SolveCfg, scope: Scope) -> Judged {
     let scen = json!({"family": family, "problem": problem.name, "cfg": cfg.to_json()});
-    match solve(problem, cfg, None, None) {
+    judge_solved(family, problem, scen, scope, solve(problem, cfg, None, None))
+}
+
+/// The same through the CLI's JSON solver configuration.
+pub fn judge_cli(family: &str, problem: &PProblem, name: &str, config: &Value, seed: u64, scope: Scope) -> Judged {
+    let scen = json!({"family": family, "problem": problem.name, "cli_config": name, "cli_generations": config["termination"]["maxGenerations"], "seed": seed});
+    judge_solved(family, problem, scen, scope, solve_cli_config(problem, config, seed))
+}
+
+fn judge_solved(family: &str, problem: &PProblem, scen: Value, scope: Scope, solved: Result<Solved, String>) -> Judged {
+    match solved {
         Ok(solved) => {
             let findings = oracle::check(problem, &solved.json, &OracleOptions { tol: tolerance_for(family).max(oracle::tolerance(family, problem)) });
             if std::env::var("VERIF_DUMP").is_ok() {
@@ -176,9 +186,55 @@ pub fn long_scenarios(tier: Tier) -> Vec<(String, PProblem, SolveCfg)> {
     out
 }
 
+/// Problems x CLI solver configurations: a slice of the families with several tours / conditional jobs / relations.
+pub fn cli_scenarios(tier: Tier) -> Vec<(String, PProblem, String, Value)> {
+    let mut problems: Vec<(String, PProblem)> = vec![];
+    problems.extend(family_mixed10().into_iter().map(|p| ("mixed10".to_string(), p)));
+    problems.extend(family_line12().into_iter().step_by(2).map(|p| ("line12".to_string(), p)));
+    problems.extend(family_fleet4(tier).into_iter().step_by(tier.pick(4, 1)).map(|p| ("fleet4".to_string(), p.fit_matrices())));
+    problems.extend(family_cond(tier).into_iter().step_by(tier.pick(9, 2)).map(|p| ("cond".to_string(), p.fit_matrices())));
+    problems.extend(family_rel(tier).into_iter().step_by(tier.pick(5, 1)).map(|p| ("rel".to_string(), p.fit_matrices())));
+    problems.extend(family_combo(2).into_iter().step_by(tier.pick(23, 3)).map(|p| ("combo".to_string(), p)));
+    let configs = cli_configs(tier.pick(8, 40));
+    let mut out = vec![];
+    for (family, p) in problems {
+        for (name, config) in &configs {
+            out.push((family.clone(), p.clone(), name.clone(), config.clone()));
+        }
+    }
+    out
+}
+
 pub fn worker(ctx: &RunCtx, shard: usize, of: usize, extra: &Extra) -> Report {
     let scope = scope_of(&ctx.id);
     let mut report = Report::new("exploration");
+    if extra.get("part").map(|s| s.as_str()) == Some("cli") {
+        let scenarios = cli_scenarios(ctx.tier);
+        let mut outcomes: HashSet<String> = HashSet::new();
+        for (idx, (family, problem, name, config)) in scenarios.iter().enumerate() {
+            if idx % of != shard {
+                continue;
+            }
+            if let Ok(only) = std::env::var("VERIF_CLI_ONLY") {
+                if format!("{} {}", problem.name, name) != only {
+                    continue;
+                }
+            }
+            let judged = judge_cli(family, problem, name, config, 7 + ctx.seed * 1000, scope);
+            report.add_count("evaluations", 1);
+            report.add_count("cli_config_solves", 1);
+            if std::env::var("VERIF_DBG").is_ok() {
+                eprintln!("CLI {} {} {}", problem.name, name, judged.outcome);
+            }
+            report.add_count("tours_returned", judged.assigned as u64);
+            outcomes.insert(format!("{}:{}", problem.name, judged.outcome));
+            for v in judged.violations {
+                report.violation(v);
+            }
+        }
+        report.add_count("distinct_nontrivial", outcomes.len() as u64);
+        return report;
+    }
     if extra.get("part").map(|s| s.as_str()) == Some("long") {
         let scenarios = long_scenarios(ctx.tier);
         let mut outcomes: HashSet<String> = HashSet::new();
@@ -235,6 +291,9 @@ pub fn run(ctx: &RunCtx) -> Report {
     let mut report = run_sharded_report(ctx, "exploration", shards, &[]);
     let long = run_sharded_report(ctx, "exploration", long_scenarios(ctx.tier).len().min(ctx.threads * 4), &["--part".to_string(), "long".to_string()]);
     report.merge(long);
+    let cli = run_sharded_report(ctx, "exploration", ctx.threads * 4, &["--part".to_string(), "cli".to_string()]);
+    report.merge(cli);
+    report.set("cli_configurations", cli_configs(1).len() as u64);
     report.set("scenarios", total as u64);
     report.set("exhaustive", true);
     report.set("configurations", configs(ctx.tier).len() as u64);
@@ -256,6 +315,15 @@ pub fn run(ctx: &RunCtx) -> Report {
 pub fn replay(ctx: &RunCtx, scenario: &Value) -> Result<Vec<Violation>, String> {
     let family = scenario["family"].as_str().ok_or("family")?;
     let name = scenario["problem"].as_str().ok_or("problem")?;
+    if let Some(cli_name) = scenario["cli_config"].as_str() {
+        let generations = scenario["cli_generations"].as_u64().unwrap_or(8) as usize;
+        let (_, config) = cli_configs(generations).into_iter().find(|(n, _)| n == cli_name).ok_or("unknown cli config")?;
+        let (family, problem, _, _) = [Tier::Quick, Tier::Thorough]
+            .into_iter()
+            .find_map(|t| cli_scenarios(t).into_iter().find(|(f, p, _, _)| f == family && p.name == name))
+            .ok_or("problem not found in the cli scenarios")?;
+        return Ok(judge_cli(&family, &problem, cli_name, &config, scenario["seed"].as_u64().unwrap_or(7), scope_of(&ctx.id)).violations);
+    }
     let cfg = SolveCfg::from_json(&scenario["cfg"]);
     // the problem is regenerated from its name (search both tiers)
     let found = [Tier::Quick, Tier::Thorough]
